@@ -158,6 +158,7 @@ static std::string step(S& s, const Op& op) {
             bool oor = false;
             if (key == "IPSecAH.icv") oor = sh.size() > 1 && ((sh.size() - 1) / 2) % 4 != 0;          // ICV is a whole number of 32-bit words
             if (key == "ICMPv6.nonce" || key == "ICMPv6.redirect_header") oor = sh.size() < 2 || ((sh.size() - 1) / 2 + 2) % 8 != 0;   // ND options are whole 8-octet units; these two encoders do not pad
+            if (key == "ICMPv6.multicast_address_records") { size_t q = 0; while ((q = sh.find("aux_data=x", q)) != std::string::npos) { q += 10; size_t e = sh.find(';', q); if (((e - q) / 2) % 4 != 0) oor = true; } }   // aux data is counted in 32-bit words
             if (key == "ICMPv6.dns_search_list") oor = sh.find("\"\"") != std::string::npos;       // an empty name is the list terminator
             if (oor) { R.count("arguments_outside_wire_range"); s.depth--; return ""; }
         }
